@@ -22,7 +22,9 @@ var canonTypeName = map[string]string{"i8": "int8", "i16": "int16", "i32": "int3
 	"f32": "float32", "f64": "float64", "byte": "uint8", "c64": "complex64", "c128": "complex128"}
 
 type canonOpts struct {
-	Rename map[string]string // identifier renaming (e.g. this -> receiver name)
+	Rename map[string]string        // identifier renaming (e.g. this -> receiver name)
+	Inline map[string]reflect.Value // temporaries printed as their defining expression (canonInlinable)
+	busy   map[string]bool
 }
 
 func canonAST(n any, o *canonOpts) string {
@@ -45,19 +47,45 @@ func canonWrite(sb *strings.Builder, v reflect.Value, o *canonOpts) {
 		canonWrite(sb, v.Elem(), o)
 	case reflect.Slice:
 		sb.WriteString("[")
+		n := 0
 		for i := 0; i < v.Len(); i++ {
-			if i > 0 {
+			var el strings.Builder
+			canonWrite(&el, v.Index(i), o)
+			if el.Len() == 0 {
+				continue // the definition of an inlined temporary
+			}
+			if n > 0 {
 				sb.WriteString(" ")
 			}
-			canonWrite(sb, v.Index(i), o)
+			n++
+			sb.WriteString(el.String())
 		}
 		sb.WriteString("]")
 	case reflect.Struct:
 		t := v.Type()
 		name := t.Name()
 		switch name {
+		case "AssignStmt":
+			if len(o.Inline) > 0 && fmt.Sprint(v.FieldByName("Tok").Interface()) == ":=" {
+				if lhs := v.FieldByName("Lhs"); lhs.Len() == 1 {
+					if id := canonDeref(lhs.Index(0)); id.IsValid() && id.Kind() == reflect.Struct && id.Type().Name() == "Ident" {
+						if _, ok := o.Inline[id.FieldByName("Name").String()]; ok {
+							return // printed at its uses
+						}
+					}
+				}
+			}
 		case "Ident":
 			id := v.FieldByName("Name").String()
+			if def, ok := o.Inline[id]; ok && !o.busy[id] {
+				if o.busy == nil {
+					o.busy = map[string]bool{}
+				}
+				o.busy[id] = true
+				canonWrite(sb, def, o)
+				o.busy[id] = false
+				return
+			}
 			if r, ok := o.Rename[id]; ok {
 				id = r
 			}
@@ -304,9 +332,166 @@ func canonLocals(pre map[string]string, nodes ...any) map[string]string {
 	return ren
 }
 
+// canonInlinable finds the temporaries of a piece of code that can be printed as their defining expression: a name
+// defined exactly once, by `x := e` with one variable on the left, never assigned, incremented, ranged over or
+// address-taken anywhere else, where e is pure arithmetic over literals and over names that are themselves never
+// written after their definition (parameters included), plus len/cap of such a name and conversions. Introducing or
+// removing such a temporary does not change what the code computes, and printing both sides with their temporaries
+// expanded makes the comparison blind to it. Name-based and conservative: a name declared twice is never expanded.
+func canonInlinable(nodes ...any) map[string]reflect.Value {
+	defs := map[string]reflect.Value{} // candidate definitions
+	writes := map[string]int{}         // how often a name is written (definitions included)
+	bad := map[string]bool{}
+	identName := func(v reflect.Value) string {
+		v = canonDeref(v)
+		if v.IsValid() && v.Kind() == reflect.Struct && v.Type().Name() == "Ident" {
+			return v.FieldByName("Name").String()
+		}
+		return ""
+	}
+	var walk func(v reflect.Value)
+	walk = func(v reflect.Value) {
+		if !v.IsValid() {
+			return
+		}
+		switch v.Kind() {
+		case reflect.Interface, reflect.Ptr:
+			if !v.IsNil() {
+				walk(v.Elem())
+			}
+		case reflect.Slice:
+			for i := 0; i < v.Len(); i++ {
+				walk(v.Index(i))
+			}
+		case reflect.Struct:
+			t := v.Type()
+			switch t.Name() {
+			case "AssignStmt":
+				lhs, rhs := v.FieldByName("Lhs"), v.FieldByName("Rhs")
+				tok := fmt.Sprint(v.FieldByName("Tok").Interface())
+				for i := 0; i < lhs.Len(); i++ {
+					if n := identName(lhs.Index(i)); n != "" {
+						writes[n]++
+						if tok == ":=" && lhs.Len() == 1 && rhs.Len() == 1 {
+							defs[n] = rhs.Index(0)
+						} else {
+							bad[n] = true
+						}
+					}
+				}
+			case "IncDecStmt":
+				if n := identName(v.FieldByName("X")); n != "" {
+					writes[n]++
+					bad[n] = true
+				}
+			case "RangeStmt":
+				for _, f := range []string{"Key", "Value"} {
+					if n := identName(v.FieldByName(f)); n != "" {
+						writes[n]++
+						bad[n] = true
+					}
+				}
+			case "ValueSpec", "Field":
+				names := v.FieldByName("Names")
+				for i := 0; names.IsValid() && i < names.Len(); i++ {
+					if n := identName(names.Index(i)); n != "" {
+						writes[n]++
+						if t.Name() == "ValueSpec" {
+							bad[n] = true
+						}
+					}
+				}
+			case "UnaryExpr":
+				if fmt.Sprint(v.FieldByName("Op").Interface()) == "&" {
+					if n := identName(v.FieldByName("X")); n != "" {
+						bad[n] = true
+					}
+				}
+			}
+			for i := 0; i < t.NumField(); i++ {
+				f := t.Field(i)
+				if !f.IsExported() || canonSkipField[f.Name] {
+					continue
+				}
+				switch f.Type.Kind() {
+				case reflect.Interface, reflect.Ptr, reflect.Slice:
+					walk(v.Field(i))
+				}
+			}
+		}
+	}
+	for _, nd := range nodes {
+		walk(reflect.ValueOf(nd))
+	}
+	// stable: written at most once (its definition, or being a parameter)
+	stable := func(n string) bool { return writes[n] <= 1 && !bad[n] }
+	var pure func(v reflect.Value, self string) bool
+	pure = func(v reflect.Value, self string) bool {
+		v = canonDeref(v)
+		if !v.IsValid() || v.Kind() != reflect.Struct {
+			return false
+		}
+		switch v.Type().Name() {
+		case "BasicLit":
+			return true
+		case "Ident":
+			n := v.FieldByName("Name").String()
+			return n != self && writes[n] >= 1 && stable(n) // a local or parameter that is never rewritten
+		case "ParenExpr":
+			return pure(v.FieldByName("X"), self)
+		case "BinaryExpr":
+			op := fmt.Sprint(v.FieldByName("Op").Interface())
+			if op == "/" || op == "%" {
+				return false // may trap: moving it changes where
+			}
+			return pure(v.FieldByName("X"), self) && pure(v.FieldByName("Y"), self)
+		case "UnaryExpr":
+			op := fmt.Sprint(v.FieldByName("Op").Interface())
+			return (op == "-" || op == "+" || op == "^" || op == "!") && pure(v.FieldByName("X"), self)
+		case "CallExpr":
+			fn := identName(v.FieldByName("Fun"))
+			args := v.FieldByName("Args")
+			if args.Len() != 1 {
+				return false
+			}
+			switch fn {
+			case "len", "cap":
+				return identName(args.Index(0)) != "" && pure(args.Index(0), self)
+			case "int", "int8", "int16", "int32", "int64", "uint", "uint8", "uint16", "uint32", "uint64", "uintptr", "byte", "rune",
+				"i8", "i16", "i32", "i64", "u8", "u16", "u32", "u64":
+				return pure(args.Index(0), self)
+			}
+		}
+		return false
+	}
+	out := map[string]reflect.Value{}
+	for n, d := range defs {
+		if writes[n] == 1 && !bad[n] && pure(d, n) {
+			out[n] = d
+		}
+	}
+	return out
+}
+
+// canonOptsFor builds the printing options for a piece of code: temporaries expanded, the remaining names the code
+// declares itself renamed positionally.
+func canonOptsFor(pre map[string]string, nodes ...any) *canonOpts {
+	inl := canonInlinable(nodes...)
+	skip := map[string]string{}
+	for k, v := range pre {
+		skip[k] = v
+	}
+	for n := range inl {
+		if _, has := skip[n]; !has {
+			skip[n] = n // keeps the name out of the positional numbering; it is never printed
+		}
+	}
+	return &canonOpts{Rename: canonLocals(skip, nodes...), Inline: inl}
+}
+
 // canonFunc prints a function's signature and body with its locals renamed positionally.
 func canonFunc(typ, body any, pre map[string]string) string {
-	o := &canonOpts{Rename: canonLocals(pre, typ, body)}
+	o := canonOptsFor(pre, typ, body)
 	return canonAST(typ, o) + "\n" + canonAST(body, o)
 }
 
